@@ -873,3 +873,24 @@ func checkC10Hostile(c C09Case) (bool, *Violation) {
 }
 
 func TestC10Hostile(t *testing.T) { ReplayOrRapid(t, NewRun(t, "C10"), checkC10Hostile, genC09) }
+
+// FuzzC10 is the coverage-guided target (thorough tier) of the hostile-text part: whatever ParseData accepts holds only
+// values a MIDI message can carry and an existing default mapping.
+func FuzzC10(f *testing.F) {
+	r := NewRun(f, "C10")
+	curRun = r
+	for _, s := range c09Factory {
+		f.Add([]byte(s))
+	}
+	f.Fuzz(func(t *testing.T, data []byte) {
+		if len(data) > 65536 {
+			return
+		}
+		c := C09Case{Data: data}
+		_, v := checkC10Hostile(c)
+		if v != nil && !r.Known(v) {
+			r.Fail(c, v)
+			t.Fatalf("VIOLATION %s", v)
+		}
+	})
+}
